@@ -43,6 +43,8 @@ GoodAfter(e) ==
   CASE e.a = "Open" -> {}
     [] e.a = "Report" -> GoodAfterReport(e.args.w, e.args.l, e.args.e)
     [] e.a = "ReportApply" -> GoodAfterReport(pend[e.args.i].w, pend[e.args.i].l, pend[e.args.i].e)
+    [] e.a = "ElectCheck" -> GoodAfterReport(e.args.w, e.args.l, e.args.e)
+    [] e.a = "ElectApply" -> GoodAfterISR
     [] e.a \in {"Shrink", "Expand"} -> IF Stale(e.args.l, e.args.e) THEN good ELSE GoodAfterISR
     [] e.a = "ISRApply" -> GoodAfterISR
     [] e.a \in {"Skip", "ReportCheck", "ISRCheck", "Rebuild"} -> good
@@ -51,6 +53,9 @@ ArmedAfter(e) ==
   CASE e.a = "Open" -> FALSE
     [] e.a = "Report" -> ArmedAfterReport(e.args.w, e.args.l, e.args.e)
     [] e.a = "ReportApply" -> ArmedAfterApply(pend[e.args.i].l, pend[e.args.i].e)
+    [] e.a = "ElectCheck" -> IF Stale(e.args.l, e.args.e) THEN armed
+                             ELSE IF Len(pend') > Len(pend) THEN FALSE ELSE ArmedAfterEffect
+    [] e.a = "ElectApply" -> IF fo'.on THEN armed ELSE FALSE
     [] e.a \in {"Shrink", "Expand", "Skip", "ReportCheck", "ISRCheck", "ISRApply"} -> armed
     [] e.a = "Expire" -> IF fo.on /\ armed THEN FALSE ELSE armed
     [] e.a \in {"Remove", "Rebuild"} -> IF exists THEN FALSE ELSE armed
@@ -58,7 +63,7 @@ ArmedAfter(e) ==
 
 TaintAfter(e) ==
   CASE e.a = "Open" -> FALSE
-    [] e.a \in {"ReportApply", "ISRApply"} -> TaintAfterApply(pend[e.args.i].l, pend[e.args.i].e)
+    [] e.a \in {"ReportApply", "ISRApply", "ElectApply"} -> TaintAfterApply(pend[e.args.i].l, pend[e.args.i].e)
     [] OTHER -> taint
 
 PropOf(e) ==
@@ -67,6 +72,8 @@ PropOf(e) ==
     [] e.a = "ReportApply" -> P_ReportApply(e.args.i)
     [] e.a = "ISRCheck" -> P_ReportCheck(e.args.r, e.args.l, e.args.e)
     [] e.a = "ISRApply" -> P_ISRApply(e.args.i)
+    [] e.a = "ElectCheck" -> P_ElectCheck(e.args.w, e.args.l, e.args.e)
+    [] e.a = "ElectApply" -> P_ElectApply(e.args.i)
     [] e.a = "Shrink" -> P_ShrinkISR(e.args.r, e.args.l, e.args.e)
     [] e.a = "Expand" -> P_ExpandISR(e.args.r, e.args.l, e.args.e)
     [] e.a = "Remove" -> P_RemoveStream
@@ -79,6 +86,8 @@ ImplOf(e) ==
     [] e.a = "ReportApply" -> DoReportApply(e.args.i)
     [] e.a = "ISRCheck" -> DoISRCheck(e.args.k, e.args.r, e.args.l, e.args.e)
     [] e.a = "ISRApply" -> DoISRApply(e.args.i)
+    [] e.a = "ElectCheck" -> DoElectCheck(e.args.w, e.args.l, e.args.e)
+    [] e.a = "ElectApply" -> DoElectApply(e.args.i)
     [] e.a = "Shrink" -> DoShrinkISR(e.args.r, e.args.l, e.args.e, e.args.ok)
     [] e.a = "Expand" -> DoExpandISR(e.args.r, e.args.l, e.args.e, e.args.ok)
     [] e.a = "Expire" -> DoExpire
